@@ -10,10 +10,10 @@ import SfxModel.FromStr
 namespace Sfx.C08
 open Sfx.TextSpec
 
-/-- FULL statement: for every byte string, radix in {2,8,10,16} and valid layout, the modelled parser returns — without panic and
+/-- FULL statement (bytes are arbitrary naturals: nothing in the model needs `b < 256`): for every byte string, radix in {2,8,10,16} and valid layout, the modelled parser returns — without panic and
 without a debug-only check — the correctly rounded value with the exact overflow flag, or an error for a malformed literal -/
 def C08_statement : Prop :=
-  ∀ L : Layout, L.valid → ∀ radix : Nat, (radix = 2 ∨ radix = 8 ∨ radix = 10 ∨ radix = 16) → ∀ bytes : List Nat, (∀ b ∈ bytes, b < 256) →
+  ∀ L : Layout, L.valid → ∀ radix : Nat, (radix = 2 ∨ radix = 8 ∨ radix = 10 ∨ radix = 16) → ∀ bytes : List Nat,
     ∃ r, FromStr.fromStr L.signed L.n bytes radix L.intBits L.f = some (.ok r false) ∧
       match parseExact radix L.f bytes with
       | some E => r = .ok (L.wrap E, !decide (inRange L E))
